@@ -440,17 +440,19 @@ class VizierServicer(vizier_service_pb2_grpc.VizierServiceServicer):
           suggest_decision_proto
       )
 
-      # Write the metadata update to the datastore.
+      # Write the metadata update to the datastore. (Under the study lock, like
+      # every other metadata write: see UpdateMetadata.)
       try:
-        self.datastore.update_metadata(
-            study_name,
-            svz.metadata_util.make_key_value_list(
-                suggest_decision.metadata.on_study
-            ),
-            svz.metadata_util.trial_metadata_to_update_list(
-                suggest_decision.metadata.on_trials
-            ),
-        )
+        with self._study_name_to_lock[study_name]:
+          self.datastore.update_metadata(
+              study_name,
+              svz.metadata_util.make_key_value_list(
+                  suggest_decision.metadata.on_study
+              ),
+              svz.metadata_util.trial_metadata_to_update_list(
+                  suggest_decision.metadata.on_trials
+              ),
+          )
       except KeyError as e:
         output_op.error.CopyFrom(
             status_pb2.Status(code=code_pb2.Code.INTERNAL, message=str(e))
@@ -814,15 +816,16 @@ class VizierServicer(vizier_service_pb2_grpc.VizierServiceServicer):
           early_stopping_decisions_proto
       )
       # Update metadata from result.
-      self.datastore.update_metadata(
-          study_name,
-          svz.metadata_util.make_key_value_list(
-              early_stopping_decisions.metadata.on_study
-          ),
-          svz.metadata_util.trial_metadata_to_update_list(
-              early_stopping_decisions.metadata.on_trials
-          ),
-      )
+      with self._study_name_to_lock[study_name]:
+        self.datastore.update_metadata(
+            study_name,
+            svz.metadata_util.make_key_value_list(
+                early_stopping_decisions.metadata.on_study
+            ),
+            svz.metadata_util.trial_metadata_to_update_list(
+                early_stopping_decisions.metadata.on_trials
+            ),
+        )
 
       # Pythia does not guarantee that the output_operation's id
       # will be in the decisions.
